@@ -221,6 +221,27 @@ func (env *Env) call(e *spec.Call) Value {
 			out.L = append(out.L, smt.Select(smt.Select(arr, m.one()), k))
 		}
 		return out
+	case "isfield":
+		// isfield(p, obj, name): the pointer p (e.g. the receiver of an atomic operation) designates field `name` of *obj
+		argc(3)
+		pv := env.eval(e.Args[0])
+		obj := env.eval(e.Args[1])
+		fid, ok := e.Args[2].(*spec.Ident)
+		if !ok {
+			specErr("isfield: third argument must be a field name")
+		}
+		opt, ok := types.Unalias(obj.T).Underlying().(*types.Pointer)
+		if !ok {
+			specErr("isfield: %s is not a pointer to a struct", exprString(e.Args[1]))
+		}
+		fi := fieldIndex(opt.Elem(), fid.Name)
+		if fi < 0 {
+			specErr("isfield: no field %s", fid.Name)
+		}
+		if pv.P == nil || pv.P.Kind != PtrHeap || len(pv.P.Path) != 1 || pv.P.Path[0] != fi || typeKey(pv.P.Root) != typeKey(opt.Elem()) {
+			return scalar(tBool, smt.False)
+		}
+		return scalar(tBool, smt.Eq(pv.P.Base, env.x.ptrOf(obj).Base))
 	case "iface":
 		// iface(x): x boxed into an interface value (for comparisons with interface-typed values)
 		argc(1)
